@@ -1,6 +1,7 @@
 package scen
 
 import (
+	"strings"
 	"context"
 	"fmt"
 	"time"
@@ -43,12 +44,29 @@ func c10Body(r *Run) {
 		nLate = 0
 	}
 	ending := t.Int(3) // 0 Close, 1 cancel Run context, 2 stop every handler
-	secondRun := t.Int(3)
+	secondRun := t.Int(4) // 0 none, 1 while running, 2 after the router closed, 3 while the first Run is still loading its plugin
+	// a fifth of the runs: a handler invocation that outlives CloseTimeout (1 s here) is in flight when the end comes:
+	// the close then times out, and Run still has to return
+	slowAtEnd := !earlyAll && startupCancel < 0 && t.Chance(1, 5)
 	extraRunHandlers := t.Skewed(4)
 	psIn := gochannel.NewGoChannel(gochannel.Config{OutputChannelBuffer: int64(simrt.Pick(t, 0, 1, 3))}, nil)
 	counting := NewCountingSubscriber(psIn)
 	psOut := gochannel.NewGoChannel(gochannel.Config{}, nil)
-	rig := newRouterRig(r, 30*time.Second)
+	closeTimeout := 30 * time.Second
+	if slowAtEnd {
+		closeTimeout = time.Second
+	}
+	rig := newRouterRig(r, closeTimeout)
+	inPlugin := make(chan struct{})
+	if secondRun == 3 {
+		rig.Router.AddPlugin(func(*message.Router) error {
+			close(inPlugin)
+			for k := 0; k < 6; k++ {
+				simrt.Yield()
+			}
+			return nil
+		})
+	}
 	var hs []*c10H
 	for i := 0; i < nH+nLate; i++ {
 		h := &c10H{name: fmt.Sprintf("h%d", i), topic: fmt.Sprintf("t%d", i), late: i >= nH, handled: map[string]int{}}
@@ -75,6 +93,10 @@ func c10Body(r *Run) {
 		h.h = rig.Router.AddHandler(h.name, h.topic, counting, "out", pub, func(m *message.Message) ([]*message.Message, error) {
 			h.handled[m.UUID]++
 			r.Logf("%s handled %s", h.name, m.UUID)
+			if strings.HasPrefix(m.UUID, "slow-") {
+				r.Fault("handler-outlives-close-timeout")
+				time.Sleep(5 * time.Second)
+			}
 			if h.sharedOut && h.handled[m.UUID] > 3 {
 				// its shared publisher was closed by another handler's Stop: stop producing, so that redelivery ends
 				return nil, nil
@@ -202,6 +224,12 @@ func c10Body(r *Run) {
 		return
 	}
 	rig.StartAsync()
+	if secondRun == 3 {
+		go func() {
+			<-inPlugin
+			secondRunCheck("while the first Run is loading its plugin")
+		}()
+	}
 	if secondRun == 1 {
 		go func() {
 			<-rig.Router.Running()
@@ -301,11 +329,24 @@ func c10Body(r *Run) {
 		r.Sim.Quiesce()
 	}
 	r.Logf("--- ending")
+	slowSent := false
+	if slowAtEnd && !allStopped {
+		for _, h := range hs {
+			if !h.stopCalled && !h.sharedOut && h.startedSeen {
+				slowSent = publish(h, "slow-"+h.name)
+				// let the invocation begin
+				for k := 0; k < 200 && h.handled["slow-"+h.name] == 0; k++ {
+					simrt.Yield()
+				}
+				break
+			}
+		}
+	}
 	switch {
 	case allStopped:
 		// the router closes itself
 	case ending == 0:
-		if err := rig.Router.Close(); err != nil {
+		if err := rig.Router.Close(); err != nil && !slowSent {
 			r.Fail("C10.R5", "Close returned an error with idle handlers", "%v", err)
 		}
 	case ending == 1:
